@@ -425,7 +425,7 @@ fn run_spaces(ctx: &mut Ctx) {
     // last id of the id table, and ids beyond the table (any u32 is a legal HpoTermId)
     // ... and ids that fold onto the present id 1 when a key is narrowed to 20, 23, 24 or 31 bits
     // (... or to 8 or 16 bits: 257, 65 537)
-    for absent in [0u32, 9_999_999, 10_000_000, u32::MAX, 1_048_577, 8_388_609, 16_777_217, 2_147_483_649, 257, 65_537] {
+    for absent in [0u32, 9_999_999, 10_000_000, u32::MAX, 1_048_577, 8_388_609, 16_777_217, 2_147_483_649, 257, 65_537, 10_000_001, 20_000_002, 4_290_000_001] {
         let p2_abs: [(u32, u32); 5] = [(1, 2), (1, absent), (absent, 1), (2, absent), (absent, 2)];
         let mut p3_abs: Vec<Op3> = vec![];
         for k in [Kind::Gene, Kind::Omim, Kind::Orpha] {
